@@ -261,6 +261,17 @@ func libModSet(vc *VC, callee *ssa.Function, c *ssa.CallCommon) (map[string]bool
 	switch {
 	case strings.HasPrefix(k, "sync.(*Mutex)"), strings.HasPrefix(k, "sync.(*RWMutex)"):
 		return map[string]bool{}, true
+	case k == "sync.(*Once).Do":
+		set := map[string]bool{}
+		vc.addrFamilies(c.Args[0], set)
+		if mc, ok := c.Args[1].(*ssa.MakeClosure); ok {
+			for f := range vc.modSet(mc.Fn.(*ssa.Function), map[*ssa.Function]bool{}) {
+				set[f] = true
+			}
+		} else {
+			set["*"] = true
+		}
+		return set, true
 	case strings.HasPrefix(k, "atomic.("):
 		set := map[string]bool{}
 		if len(c.Args) > 0 {
@@ -330,6 +341,26 @@ func (fr *Frame) libModel(callee *ssa.Function, args []Val, rt types.Type, pos t
 		fr.cur.heap = vc.heapSet(fr.cur.heap, "E_uint8", vc.define("E_uint8", vc.famSort["E_uint8"], "(store "+cur+" "+b.L[0]+" "+inner+")"))
 		return Val{Typ: rt}, true
 	}
+	if k == "sync.(*Once).Do" {
+		// once.Do(f): if !done { done = true; f() }
+		recv := args[0]
+		T := callee.Signature.Recv().Type().Underlying().(*types.Pointer).Elem()
+		loc := recv.Loc
+		if loc == nil {
+			loc = &Loc{Fam: "E_" + vc.typeName(T), Idx: []string{recv.L[0], "0"}, Typ: T}
+		}
+		done := vc.define("once.done", "Bool", not(eq(vc.loadLoc(fr.cur.heap, loc).T(), "0")))
+		fr.cur.heap = vc.storeLoc(fr.cur.heap, loc, Val{Typ: T, L: []string{"1"}})
+		if args[1].Clo != nil {
+			fr.condCall(not(done), func() {
+				fn := args[1].Clo.Fn.(*ssa.Function)
+				fr.staticCall(fn, args[1].Clo.Bindings, nil, resultType(fn.Signature), pos)
+			})
+		} else {
+			fr.condCall(not(done), func() { fr.unknownCall("sync.Once.Do of unknown func", nil, rt, true) })
+		}
+		return Val{Typ: rt}, true
+	}
 	if strings.HasPrefix(k, "sync.(*Mutex).") || strings.HasPrefix(k, "sync.(*RWMutex).") {
 		switch callee.Name() {
 		case "Lock", "Unlock", "RLock", "RUnlock":
@@ -345,6 +376,24 @@ func (fr *Frame) libModel(callee *ssa.Function, args []Val, rt types.Type, pos t
 		loc := recv.Loc
 		if loc == nil {
 			loc = &Loc{Fam: "E_" + vc.typeName(T), Idx: []string{recv.L[0], "0"}, Typ: T}
+		}
+		if isAtomicValue(T) {
+			cur := vc.loadLoc(fr.cur.heap, loc)
+			switch m {
+			case "Load":
+				return fr.typed(fr.nameVal2("atomic.load", Val{Typ: rt, L: cur.L})), true
+			case "Store":
+				fr.cur.heap = vc.storeLoc(fr.cur.heap, loc, Val{Typ: T, L: args[1].L})
+				return Val{Typ: rt}, true
+			case "Swap":
+				old := fr.nameVal2("atomic.old", Val{Typ: rt, L: cur.L})
+				fr.cur.heap = vc.storeLoc(fr.cur.heap, loc, Val{Typ: T, L: args[1].L})
+				return old, true
+			case "CompareAndSwap":
+				okc := vc.define("atomic.cas", "Bool", and(eq(cur.L[0], args[1].L[0]), eq(cur.L[1], args[1].L[1])))
+				fr.cur.heap = vc.storeLoc(fr.cur.heap, loc, Val{Typ: T, L: []string{ite(okc, args[2].L[0], cur.L[0]), ite(okc, args[2].L[1], cur.L[1])}})
+				return Val{Typ: rt, L: []string{okc}}, true
+			}
 		}
 		isBool := strings.HasSuffix(vc.typeName(T), "atomic.Bool")
 		rd := func() string {
@@ -400,4 +449,23 @@ func (fr *Frame) libModel(callee *ssa.Function, args []Val, rt types.Type, pos t
 		}
 	}
 	return Val{}, false
+}
+
+// condCall runs body under the extra path condition cond and merges the
+// resulting state with the state of the path where cond is false.
+func (fr *Frame) condCall(cond string, body func()) {
+	vc := fr.vc
+	start := *fr.cur
+	startR := fr.curR
+	st := start
+	fr.cur = &st
+	c := vc.define("R.cond", "Bool", and(startR, cond))
+	fr.curR = c
+	body()
+	after := *fr.cur
+	fr.curR = startR
+	ns := start
+	ns.heap = vc.heapMerge([]string{cond, "true"}, []*Heap{after.heap, start.heap})
+	ns.now = vc.define("now", "Int", ite(cond, after.now, start.now))
+	fr.cur = &ns
 }
